@@ -7,13 +7,22 @@ PROPS = {
         title='Thread pool / work thread',
         flavours=dict(
             asan=dict(quick_s=35, thorough_s=600),
-            tsan=dict(quick_runs=240, thorough_runs=4000, quick_s=40, thorough_s=400),
+            tsan=dict(quick_s=12, thorough_s=300),
         ),
         race_re=r'modules/(tbox/)?eventx/(thread_pool|work_thread)\.cpp',
         mode='threads',
         real=['event::Loop (epoll and select back ends)', 'eventx::ThreadPool', 'eventx::WorkThread', 'base::Cabinet', 'base::ObjectPool',
               'std::thread/mutex/condition_variable (libstdc++, modelled at the pthread boundary)'],
         stub=['kernel thread scheduling (seeded scheduler)', 'monotonic clock (virtual)'],
+    ),
+    'C10': dict(
+        harness='c10_asyncpipe',
+        title='Async pipe',
+        flavours=dict(asan=dict(quick_s=30, thorough_s=600), tsan=dict(quick_s=12, thorough_s=300)),
+        race_re=r'modules/(tbox/)?util/async_pipe\.cpp',
+        mode='threads',
+        real=['util::AsyncPipe (producers, back-end thread, timed flush, back-pressure, cleanup)'],
+        stub=['kernel thread scheduling (seeded scheduler)', 'monotonic clock (virtual)', 'the sink (records bytes; may be slow)'],
     ),
 }
 
@@ -26,4 +35,4 @@ NOT_APPLICABLE = {
 
 # planned in DESIGN.md §7 but whose harness is not built yet — not claimed until it is
 PENDING = {p: 'harness not built yet (planned in DESIGN.md §7); not claimed until the check exists' for p in
-           ['C01', 'C02', 'C03', 'C04', 'C06', 'C09', 'C10', 'C11', 'C12', 'C13', 'C14', 'C15', 'C17', 'C18', 'C20']}
+           ['C01', 'C02', 'C03', 'C04', 'C06', 'C09', 'C11', 'C12', 'C13', 'C14', 'C15', 'C17', 'C18', 'C20']}
